@@ -346,6 +346,7 @@ def tasks(tier):
     return ['eq:%s' % m for m in mods] + ['names', 'steppers', 'order',
                                           'canary', 'group_names',
                                           'stateless', 'exact',
+                                          'group_index',
                                           'dep:C02:closure']
 
 
@@ -558,6 +559,71 @@ def task_exact(ctx, repo):
                           extra=dict(comparisons=ops))], replay=rp)
 
 
+def task_group_index(ctx, repo):
+    """Group(start_idx=<name>) / Group(stop_idx=<name>) make the generated
+    loop read <destination>.<name>[0]: the name must exist (as a property or
+    a constant) on every destination array of the group, and set-up says so
+    -- for every group and every sub-group."""
+    m = repo.module('pysph.sph.acceleration_eval')
+    fn = m.functions.get('check_group_index_names')
+    W = m.path
+    obs = []
+    if fn is None:
+        ctx.prove('group_index.names_exist_on_every_destination', [
+            Obligation('group_index.checker_present', [], z3.BoolVal(False),
+                       W)])
+        return
+    ctx.function(m, fn, 'check_group_index_names')
+    for attr in ('start_idx', 'stop_idx'):
+        for where in ('property', 'constant', 'nowhere'):
+            arr = SymObject(None, dict(
+                name='fluid',
+                properties={'x': 1, 'nm': 1} if where == 'property' else
+                {'x': 1},
+                constants={'nm': 1} if where == 'constant' else {}), 'fluid')
+            other = SymObject(None, dict(name='solid',
+                                         properties={'nm': 1},
+                                         constants={}), 'solid')
+            eq = SymObject(None, dict(dest='fluid', name='Eq'), 'eq')
+            grp = SymObject(None, dict(
+                has_subgroups=False, equations=[eq], name='G',
+                start_idx='nm' if attr == 'start_idx' else 0,
+                stop_idx='nm' if attr == 'stop_idx' else None), 'group')
+            ext = dict(EXT)
+            ext['isinstance'] = lambda e, s_, a, k, n: isinstance(a[0], str)
+            ex = Executor(repo, m, qualname='check_group_index_names',
+                          merge=False, externals=ext)
+            try:
+                outs = ex.exec_function(fn, dict(group=grp,
+                                                 particle_arrays=[arr,
+                                                                  other]))
+                if where == 'nowhere':
+                    ok = len(outs) >= 1 and all(
+                        o.kind == 'raise' and
+                        o.value.exc_type == 'RuntimeError' for o in outs)
+                else:
+                    ok = len(outs) >= 1 and all(o.kind == 'return'
+                                                for o in outs)
+            except VCError as e:
+                ok = False
+            obs.append(Obligation('group_index.%s.%s' % (attr, where), [],
+                                  z3.BoolVal(bool(ok)), W))
+    # AccelerationEval.__init__ applies it to every group and sub-group
+    init = m.methods('AccelerationEval')['__init__']
+    calls = [n_ for n_ in ast.walk(init) if isinstance(n_, ast.Call) and
+             isinstance(n_.func, ast.Name) and
+             n_.func.id == 'check_group_index_names']
+    in_loops = 0
+    for lp in ast.walk(init):
+        if isinstance(lp, ast.For) and any(c in list(ast.walk(lp))
+                                           for c in calls):
+            in_loops += 1
+    obs.append(Obligation('group_index.applied_to_groups_and_subgroups', [],
+                          z3.BoolVal(len(calls) >= 2 and in_loops >= 2), W,
+                          extra=dict(calls=len(calls), loops=in_loops)))
+    ctx.prove('group_index.names_exist_on_every_destination', obs)
+
+
 def run_task(task, ctx):
     if task.startswith('dep:'):
         from contracts import deps
@@ -569,6 +635,8 @@ def run_task(task, ctx):
         return task_stateless(ctx, repo)
     if task == 'exact':
         return task_exact(ctx, repo)
+    if task == 'group_index':
+        return task_group_index(ctx, repo)
     if task.startswith('eq:'):
         return task_eq_module(ctx, repo, task[3:])
     if task == 'names':
@@ -1044,6 +1112,9 @@ def task_order(ctx, repo):
                           'check_equation_array_properties':
                           lambda e_, s_, a_, k, n: s_.trace.append(
                               ('check', a_[0].name, a_[1])),
+                          'check_group_index_names':
+                          lambda e_, s_, a_, k, n: s_.trace.append(
+                              ('check_group', a_[0].name, a_[1])),
                           'MegaGroup': lambda e_, s_, a_, k, n:
                           s_.trace.append(('mega', a_[0].name))})
         for nm in ('CythonGroup', 'OpenCLGroup', 'CUDAGroup'):
@@ -1066,7 +1137,12 @@ def task_order(ctx, repo):
             ok = sorted(checked) == ['a', 'b', 'c', 'd', 'e'] and all(
                 t[2] == arrays for t in tr if t[0] == 'check') and \
                 [t[1] for t in tr if t[0] == 'mega'] == ['g1', 'g2']
-            why = 'checked before code generation: %s' % checked
+            # ... and the index names of every group and sub-group
+            gchecked = [t[1] for t in tr[:firstmega] if t[0] == 'check_group']
+            ok = ok and sorted(gchecked) == ['g1', 'g2', 'sub1', 'sub2'] and \
+                all(t[2] == arrays for t in tr if t[0] == 'check_group')
+            why = 'checked before code generation: %s, groups %s' % (
+                checked, gchecked)
         obs.append(Obligation('order.%s' % backend, [], z3.BoolVal(bool(ok)),
                               W, extra=dict(why=why)))
     ctx.function(m, fn, 'AccelerationEval.__init__')
